@@ -253,12 +253,11 @@ theorem flattenedSumLoop_value : ∀ (fuel : Nat) (queue done : List Expr) (v : 
         apply flattenedSumLoop_value fuel queue done _ (by omega)
         rw [evalKL_append_mk ρ hd hq]; simp [opK]
       · split
-        · -- a sum: children go to the end of the queue
+        · -- a sum: children are spliced in place (front of the queue)
           rw [evalK_sum] at hx
           apply flattenedSumLoop_value fuel _ done _
             (by simp only [sizeL_append, Expr.size] at hf ⊢; omega)
-          rw [evalKL_append_mk ρ hd (evalKL_append_mk ρ hq hx)]
-          simp only [opK_false, opK_true, Option.some.injEq]; ring
+          rw [evalKL_append_mk ρ hd (evalKL_append_mk ρ hx hq)]
         · apply flattenedSumLoop_value fuel queue (done ++ [item]) _ (by omega)
           rw [evalKL_append_mk ρ (evalKL_append_mk ρ hd (evalKL_singleton ρ hx)) hq]
           simp only [opK_false, opK_true, Option.some.injEq]; ring
@@ -310,8 +309,7 @@ theorem flattenedProductLoop_value : ∀ (fuel : Nat) (queue done : List Expr) (
           · rw [evalK_prod] at hx
             apply flattenedProductLoop_value fuel _ done _
               (by simp only [sizeL_append, Expr.size] at hf ⊢; omega)
-            rw [evalKL_append_mk ρ hd (evalKL_append_mk ρ hq hx)]
-            simp only [opK_false, opK_true, Option.some.injEq]; ring
+            rw [evalKL_append_mk ρ hd (evalKL_append_mk ρ hx hq)]
           · apply flattenedProductLoop_value fuel queue (done ++ [item]) _ (by omega)
             rw [evalKL_append_mk ρ (evalKL_append_mk ρ hd (evalKL_singleton ρ hx)) hq]
             simp only [opK_false, opK_true, Option.some.injEq]; ring
